@@ -178,30 +178,35 @@ Proof.
   cbn [snd slog reported swallowed].
   rewrite !existsb_app, E2, E3, E4.
   assert (H1 : existsb is_failed_reload (if start then [EDisable] else []) = false) by (destruct start; reflexivity).
-  rewrite H1. cbn. destruct rep2, rep3, rep4, sw4; reflexivity.
+  rewrite H1. cbn. destruct rep2, rep3, rep4, sw4, (reports t), (t_all_reports t); reflexivity.
 Qed.
 
-(* a failure is swallowed only by the ReloadForBatchUpdates path at the end of a batch *)
-Theorem ctl_swallowed_only_at_batch_end : forall e c t,
+(* a failure is swallowed only by the ReloadForBatchUpdates path at the end of a batch, or by a
+   handler that has nothing to report on (endpointslice tasks; deletion of a vanished object) *)
+Theorem ctl_swallowed_only_there : forall e c t,
   swallowed (snd (sync e c t)) = true ->
-  t_qlen t = 0 /\ batch (fst (sync e c t)) = false /\ batch c = true /\ uab (fst (sync e c t)) = false.
+  (t_qlen t = 0 /\ batch c = true /\ batch (fst (sync e c t)) = false /\ uab (fst (sync e c t)) = false)
+  \/ reports t = false \/ t_all_reports t = false.
 Proof.
   intros e c t. unfold sync.
   set (start := ready c && (1 <? t_qlen t)%nat && negb (batch c)).
   set (cfg1 := if start then set_enabled false (cfg c) else cfg c).
   set (batch1 := batch c || start).
-  destruct (handler e t (ready c && negb batch1) cfg1) as [[cfg2 l2] rep2].
-  match goal with |- context [phase_fin e t ?f cfg2] => destruct (phase_fin e t f cfg2) as [[cfg3 l3] rep3] end.
+  destruct (handler e t (ready c && negb batch1) cfg1) as [[cfg2 l2] f2].
+  match goal with |- context [phase_fin e t ?f cfg2] => destruct (phase_fin e t f cfg2) as [[cfg3 l3] f3] end.
+  destruct (reports t) eqn:Rp; [|intros _; right; left; reflexivity].
+  destruct (t_all_reports t) eqn:Ar; [|intros _; right; right; reflexivity].
+  rewrite !andb_false_r. cbn [orb negb].
   unfold phase_end.
-  destruct (batch1 && Nat.eqb (t_qlen t) 0) eqn:B; [|cbn; discriminate].
+  destruct (batch1 && Nat.eqb (t_qlen t) 0) eqn:B; [|cbn; rewrite ?andb_false_r; discriminate].
   apply andb_prop in B. destruct B as [B1 B2]. apply Nat.eqb_eq in B2.
   destruct (uab c || is_cm_task (t_kind t) && batch1) eqn:U.
-  - destruct (update_all e t (set_enabled true cfg3)) as [[s' l] r]. cbn. discriminate.
-  - destruct (step e (set_enabled true cfg3) _) as [s' x]. cbn. intros _.
+  - destruct (update_all e t (set_enabled true cfg3)) as [[s' l] r]. cbn. rewrite ?andb_false_r, ?orb_false_r. discriminate.
+  - destruct (step e (set_enabled true cfg3) _) as [s' x]. cbn. intros _. left.
     repeat split; auto.
-    + rewrite andb_false_r. reflexivity.
     + subst batch1 start. rewrite B2 in B1. cbn in B1. rewrite andb_false_r in B1. cbn in B1.
       rewrite orb_false_r in B1. exact B1.
+    + rewrite andb_false_r. reflexivity.
 Qed.
 
 (* ------------------------------------------------------------------ T3: the end of a batch *)
@@ -378,7 +383,7 @@ Qed.
 (* ------------------------------------------------------------------ refutations (witnesses replayed on the real code by the harness) *)
 
 Definition mk_task (k : tkind) (q : nat) (w : list op) (f : bool) : task :=
-  {| t_kind := k; t_qlen := q; t_work := w; t_found := f; t_mainver := 0; t_all := [] |}.
+  {| t_kind := k; t_qlen := q; t_work := w; t_found := f; t_reports := true; t_all_reports := true; t_mainver := 0; t_all := [] |}.
 
 (* start-up (queue drains at once), then a batch of two tasks that touch nothing *)
 Definition idle_batch : list task := [mk_task TOther 0 [] false; mk_task TOther 2 [] false; mk_task TOther 0 [] false].
